@@ -32,7 +32,10 @@ FloorInv(w, t) == /\ t # Zero
                   /\ LET p == Mul(w, t) IN Le(p, MaxT) /\ Lt(MaxT, Add(p, t))
 
 \* ---- environment --------------------------------------------------------
-WellFormedNet(n) == /\ 0 < n.oak /\ n.oak < n.asic /\ n.asic < n.allow /\ n.allow <= n.final
+\* Fork heights are naturals and every era predicate below compares the CHILD height with them (child < H,
+\* child <= H, child = H): a fork height of 0 means "from genesis".  Nothing orders the legacy forks among
+\* themselves; the final cut cannot precede the height at which v2 is allowed.
+WellFormedNet(n) == /\ n.oak >= 0 /\ n.asic >= 0 /\ n.allow >= 0 /\ n.allow <= n.final
                     /\ n.interval >= 1 /\ n.factor >= 1 /\ n.factor < Base
 
 \* ---- eras: which clamp clause governs the step that creates block `child' ---
@@ -75,8 +78,10 @@ Clamp(n, s, s2) ==
 NonZero(n, s2) == s2.D # Zero /\ (s2.height < n.final => s2.T # Zero)
 
 \* ---- inverse relations (state predicates) -----------------------------------
-InvDifficulty(n, s) == IF s.height < n.allow THEN FloorInv(s.D, s.T)
-                       ELSE IF s.height < n.final THEN FloorInv(s.T, s.D) ELSE s.T = Zero
+\* (the genesis state carries the network's initial target, whatever the era: the difficulty is derived from it)
+InvDifficulty(n, s) == IF s.height >= n.final THEN s.T = Zero
+                       ELSE IF s.height < n.allow \/ s.height = 0 THEN FloorInv(s.D, s.T)
+                       ELSE FloorInv(s.T, s.D)
 InvTotalWork(n, s)  == IF s.height < n.allow THEN FloorInv(s.W, s.depth)
                        ELSE IF s.height < n.final THEN FloorInv(s.depth, s.W) ELSE s.depth = Zero
 InvOakWork(n, s)    == IF s.height < n.allow THEN FloorInv(s.oakW, s.oakT)
